@@ -235,7 +235,15 @@ func (self ValueList) iterReset() {
 }
 
 func (self ValueList) IntoIter() func() (Value, bool) {
-	return self.iterNext
+	// Every loop owns its cursor and iterates over the elements which the list had when the loop started:
+	// a loop which is left early must not leave its position behind for the next loop over the same list.
+	values := make([]*Value, len(*self.Values))
+	for idx, element := range *self.Values {
+		elementCopy := *element
+		values[idx] = &elementCopy
+	}
+	zero := 0
+	return ValueList{Values: &values, currIterIdx: &zero}.iterNext
 }
 
 func NewValueList(values []*Value) *Value {
